@@ -569,6 +569,31 @@ Section RegionSound.
     - pose proof (relR_teq _ _ _ HD HnD Hr) as Ht. now rewrite (proj1 Ht).
   Qed.
 
+  (* the values of the rewritten run, name by name: outside the moved members nothing changes; the members are elementwise
+     nodes of the rewritten graph *)
+  Theorem region_frame :
+    (exists ef', evalg (tg_nodes (apply_region g r)) e = Some ef' /\
+       forall x w, ef' x = Some w -> exists v, ef x = Some v /\ (In x (outs_of (r_es r)) \/ teq v w)) /\
+    (forall n y, In n (tg_nodes (apply_region g r)) -> In y (n_outs n) -> In y (outs_of (r_es r)) -> is_elem n = true /\ n_caps n = []) /\
+    (forall y, In y (outs_of (r_es r)) -> In y (defs (tg_nodes (apply_region g r)))).
+  Proof.
+    split; [|split].
+    - destruct region_env as (ef' & Hev' & Hi). exists ef'. split; [exact Hev'|]. intros x w Hx.
+      destruct (new_defined_plain ef' x w Hev' Hi Hx) as (v & Ev & Hr & HnD). exists v. split; [exact Ev|].
+      destruct (in_dec Nat.eq_dec x D) as [HD|HD]; [left; exact HD | right; exact (relR_teq x v w HD HnD Hr)].
+    - intros n' y Hn' Hy HyD. cbn [apply_region tg_nodes] in Hn'. apply in_map_iff in Hn' as (m & <- & Hm). apply filter_In in Hm as [Hm Hk].
+      rewrite region_tr_outs in Hy. unfold outs_of in HyD. apply in_map_iff in HyD as (n0 & <- & Hn0).
+      destruct (rf_es _ _ _ _ Hrf n0 Hn0) as (Hn0in & Ho0 & Hc0 & He0).
+      assert (m = n0) by (apply (defs_unique (tg_nodes g) m n0 (out_of n0) Hnd Hm Hn0in Hy); rewrite Ho0; now left). subst m.
+      split.
+      + unfold is_elem, nop in *. now rewrite region_tr_op.
+      + unfold region_tr. rewrite (proj2 (memn_In _ _) Hn0), Hc0. reflexivity.
+    - intros y HyD. unfold outs_of in HyD. apply in_map_iff in HyD as (n0 & <- & Hn0).
+      destruct (rf_es _ _ _ _ Hrf n0 Hn0) as (Hn0in & Ho0 & _). unfold defs. apply in_flat_map. exists (region_tr r n0). split.
+      + cbn [apply_region tg_nodes]. apply in_map. apply filter_In. split; [exact Hn0in | now apply es_kept].
+      + rewrite region_tr_outs, Ho0. now left.
+  Qed.
+
   Theorem region_admissible : tadmissible (apply_region g r) e.
   Proof.
     destruct region_env as (ef' & Hev' & Hi). constructor.
